@@ -131,6 +131,12 @@ func (ex *Exec) cutLoop(li *loopInfo, entry []Edge, invs []Directive) []Edge {
 	for _, d := range invs {
 		ex.vc.Assume(Implies(pcIn, ctxH.evalBool(d.Text)))
 	}
+	if ex.hdrState == nil {
+		ex.hdrState = map[*loopInfo]*State{}
+		ex.hdrPhis = map[*loopInfo]map[*ssa.Phi]Value{}
+	}
+	ex.hdrState[li] = st.Clone()
+	ex.hdrPhis[li] = phiH
 	var variant0 *Term
 	decr := ex.loopDirs(li, "decreases")
 	if len(decr) > 0 {
@@ -165,6 +171,11 @@ func (ex *Exec) cutLoop(li *loopInfo, entry []Edge, invs []Directive) []Edge {
 	nback := 0
 	for _, e := range out {
 		if e.to != h {
+			// restore the header symbols for names evaluated on exit edges
+			for phi, v := range phiH {
+				ex.env[phi] = v
+			}
+			ex.pointDirectives(fmt.Sprintf("exit loop%d", li.ord), nil, e.pc, e.st, li)
 			exits = append(exits, e)
 			continue
 		}
@@ -174,8 +185,22 @@ func (ex *Exec) cutLoop(li *loopInfo, entry []Edge, invs []Directive) []Edge {
 			phiB[phi] = ex.phiValue(phi, []Edge{e})
 		}
 		ctxB := &Ctx{ex: ex, fn: ex.fn, fc: ex.fc, st: e.st, old: ex.entry, params: ex.paramMap(), pc: e.pc, phiOv: phiB, loop: li, envOv: e.env}
+		for _, d := range ex.loopDirs(li, "lemma_back") {
+			// lemma on the back edge: asserted, then assumed for the preservation obligations
+			g := ctxB.evalBool(d.Text)
+			ex.vc.Oblige(ex.obName(tag, fmt.Sprintf("lemma_back/%s/back%d", d.Label, nback)), "lemma", Implies(e.pc, g))
+			ex.vc.Assume(Implies(e.pc, g))
+		}
 		for _, d := range invs {
-			ex.vc.Oblige(ex.obName(tag, fmt.Sprintf("inv_preserved/%s/back%d", d.Label, nback)), "inv", Implies(e.pc, ctxB.evalBool(d.Text)))
+			g := ctxB.evalBool(d.Text)
+			if e.pc.Op == "or" && len(e.pc.Args) <= 8 {
+				// one obligation per path reaching the back edge
+				for k, disj := range e.pc.Args {
+					ex.vc.Oblige(ex.obName(tag, fmt.Sprintf("inv_preserved/%s/back%d/path%d", d.Label, nback, k+1)), "inv", Implies(disj, g))
+				}
+				continue
+			}
+			ex.vc.Oblige(ex.obName(tag, fmt.Sprintf("inv_preserved/%s/back%d", d.Label, nback)), "inv", Implies(e.pc, g))
 		}
 		if variant0 != nil {
 			v1 := ctxB.evalTerm(decr[0].Text)
